@@ -244,12 +244,14 @@ func (b *BlockWise[C]) Do(r *pool.Message, maxSzx SZX, maxMessageSize uint32, do
 		return nil, fmt.Errorf("cannot set payload size: %w", err)
 	}
 	req.SetOptionUint32(message.Size1, payloadSizeUint32)
-	block, err := EncodeBlockOption(maxSzx, 0, true)
+	newBufLen := bufferSize(maxSzx, maxMessageSize)
+	// with BERT the first message carries several blocks and may hold the whole body
+	more := payloadSize > newBufLen
+	block, err := EncodeBlockOption(maxSzx, 0, more)
 	if err != nil {
-		return nil, fmt.Errorf("cannot encode block option(%v, %v, %v) to bw request: %w", maxSzx, 0, true, err)
+		return nil, fmt.Errorf("cannot encode block option(%v, %v, %v) to bw request: %w", maxSzx, 0, more, err)
 	}
 	req.SetOptionUint32(message.Block1, block)
-	newBufLen := bufferSize(maxSzx, maxMessageSize)
 	buf := make([]byte, newBufLen)
 	newOff, err := r.Body().Seek(0, io.SeekStart)
 	if err != nil {
